@@ -192,7 +192,7 @@ def c15(tier, seed):
 def c17_models(tier):
     n = 4
     cs = bar_candidates(n, extras=False)
-    bads = [(0, "ok")] + [(at, cls) for at in (1, 2, 3) for cls in ("shape", "below", "above", "nan", "index")]
+    bads = [(0, "ok")] + [(at, cls) for at in (1, 2, 3) for cls in ("shape", "below", "above", "nan", "index", "column")]
     inv = ["MalformedNeverExecutes", "RejectedByDueStep", "MalformedRejected", "FifoDelay"]
     return [env_model("malformed", G[:n], cs, range(1, n + 1), 0, [0], [FOLD_ALL], [(False, -1)],
                       delays=(0, 1, 2), spaces=("box", "discrete", "boxcash", "boxlots", "disclots", "boxvec"), bads=bads, maxcalls=n,
